@@ -434,7 +434,8 @@ func c13run(w *report.W) {
 		w.P.Bounds["anchor_grammar"] = fmt.Sprintf("%d documents of the C07 grammar (<=%d deviations), as top-level mapping and inside a command step", ex3.Stats.Executions, c07bound)
 	}
 	// base documents too
-	for name, text := range map[string]string{"rich": richDoc, "typical": typicalDoc} {
+	for _, nt := range [][2]string{{"rich", richDoc}, {"typical", typicalDoc}} {
+		name, text := nt[0], nt[1]
 		doc := docgen.Y(text)
 		total := c13countNodes(doc)
 		for i := 0; i < total; i++ {
